@@ -95,3 +95,25 @@ Proof.
   - split; [discriminate|]. intro H. apply find_some in E. destruct E as (Hin & Hc). rewrite (H m Hin) in Hc. discriminate.
   - split; [|reflexivity]. intros _ m Hin. exact (find_none _ _ E m Hin).
 Qed.
+
+(* ---- D18: the window arithmetic before the repair (instruction_ptr - 128, unchecked) ---- *)
+Inductive wres := WOk (w : option (N * N)) | WPanic.
+Definition ip_window_unchecked (ms : list minfo) (ip : N) : wres :=
+  match find (fun m => covers m ip) ms with
+  | Some m =>
+      let half := IP_MEMORY_SIZE / 2 in
+      if ip <? half then WPanic                                  (* usize subtraction traps (debug profile) *)
+      else WOk (Some (N.max (m_start m) (ip - half), N.min (m_start m + m_size m) (ip + half) - N.max (m_start m) (ip - half)))
+  | None => WOk None
+  end.
+(* wherever the unchecked arithmetic does not trap it is the window of the model ... *)
+Theorem ip_window_unchecked_agrees ms ip w : ip_window_unchecked ms ip = WOk w -> ip_window ms ip = w.
+Proof.
+  unfold ip_window_unchecked, ip_window. destruct (find (fun m => covers m ip) ms) as [m|]; [|intro H; now injection H].
+  destruct (ip <? IP_MEMORY_SIZE / 2); [discriminate|]. intro H. now injection H.
+Qed.
+(* ... and it traps on a target whose zero page is mapped, for a crash instruction pointer below 128 *)
+Theorem ip_window_unchecked_refuted :
+  let zero_page := {| m_start := 0; m_size := 4096; m_sys_start := 0; m_sys_end := 4096; m_off := 0; m_perms := 7; m_name := None |} in
+  ip_window_unchecked [zero_page] 16 = WPanic /\ ip_window [zero_page] 16 = Some (0, 144).
+Proof. vm_compute. split; reflexivity. Qed.
